@@ -811,6 +811,12 @@ def h_cache(ctx, cfg, env):
     for k, (n, i) in enumerate(order):
         with_jac = bool(ctx.flag(f"jac_{n.replace('/', '_')}_{i}")) if cfg.get("jac", True) else False
         inputs, outputs, jac = _cache_entry_values(ctx, f"e_{n.replace('/', '_')}_{i}", with_jac)
+        if cfg.get("pin_x"):
+            # many entries: the first input component is pinned to the entry number, so that the equality tests between entries are decided
+            # without forking (the inputs are pinned; the outputs and the Jacobian blocks stay symbolic)
+            ctx.assume(ctx.eq(elems(inputs["x"])[0], float(i)))
+            for v in elems(inputs["x"])[1:] + elems(inputs["p"]):
+                ctx.assume(ctx.eq(v, 0.5))
         for (pi, _, _) in model[n]:
             # entries of one node are distinct inputs (otherwise the second is the same entry)
             ctx.assume(ctx.not_(ctx.eq(elems(pi["x"])[0], elems(inputs["x"])[0])))
@@ -834,6 +840,10 @@ def h_cache(ctx, cfg, env):
         # an input that was never cached is not served
         if model[n]:
             unknown = {"x": ctx.reals(f"unk_{n.replace('/', '_')}_x", 2), "p": ctx.reals(f"unk_{n.replace('/', '_')}_p", 1)}
+            if cfg.get("pin_x"):
+                ctx.assume(ctx.eq(elems(unknown["x"])[0], -1.0))
+                for v in elems(unknown["x"])[1:] + elems(unknown["p"]):
+                    ctx.assume(ctx.eq(v, 0.5))
             for (pi, _, _) in model[n]:
                 ctx.assume(ctx.not_(ctx.eq(elems(pi["x"])[0], elems(unknown["x"])[0])))
             miss = again[unknown]
@@ -848,6 +858,8 @@ def _cache_configs(tier):
         ("cache", dict(nodes=["a", "b"], entries={"a": 1, "b": 1}, jacfirst=not quick)),
         ("cache", dict(nodes=["grp/a", "grp/b"], entries={"grp/a": 2, "grp/b": 1}, jac=quick is False)),
         ("cache", dict(nodes=["top/x/n", "top/n"], entries={"top/x/n": 1, "top/n": 1}, jac=False)),
+        # ten entries and more: the groups "1", "10", "11", "2", ... are listed by h5py in alphabetical order of their names
+        ("cache", dict(nodes=["node"], entries={"node": 11}, jac=False, pin_x=True)),
     ]
     if not quick:
         out.append(("cache", dict(nodes=["a", "b"], entries={"a": 2, "b": 2}, jac=False)))
